@@ -18,6 +18,11 @@ func FuzzVerifC15Bandwidth(f *testing.F) {
 		f.Add(s, uint32(1000), uint32(1500), uint8(0))
 	}
 	f.Add("1e400M", uint32(1), uint32(1000000000), uint8(7))
+	// fractional numbers with a unit, n < 1, neighbours across a unit boundary
+	for _, s := range []string{"0.5K", "0.5M", "0.5G", "0.5T", "1.5M", "1100K", "3.5T", "0.001K", "0.125GiB", "999.999MB", "1023.999K"} {
+		f.Add(s, uint32(500), uint32(1500), uint8(3))
+	}
+	f.Add("1", uint32(499), uint32(1100000), uint8(11))
 	f.Fuzz(func(t *testing.T, s string, a, b uint32, forms uint8) {
 		defer g.FuzzGuard(t, "FuzzVerifC15Bandwidth", s, a, b, forms)()
 		c := g.FuzzSink{T: t}
